@@ -169,6 +169,14 @@ impl FeatureRewriter {
     }
 }
 
+#[cfg(vibrato_verif)]
+impl FeatureRewriter {
+    /// Verification hook: number of trie nodes.
+    pub fn verif_num_nodes(&self) -> usize {
+        self.nodes.len()
+    }
+}
+
 #[cfg(test)]
 mod tests {
     use super::*;
